@@ -1,12 +1,10 @@
 import AlatorVerif.Model.Uist
+import AlatorVerif.Driver.Util
 namespace Drv.Uist
-open PU
+open PU Drv
 
 abbrev UOrd := Order String Float
-abbrev St := Uist String Float
-
-def f64 (s : String) : Float := Float.ofBits (s.toNat!.toUInt64)
-def bits (x : Float) : String := toString x.toBits.toNat
+abbrev St := PU.Uist String Float
 
 def kindSide (t : Nat) : Kind × Side :=
   match t with
@@ -17,8 +15,6 @@ def typNum (o : UOrd) : Nat :=
   | .market, .sell => 0 | .market, .buy => 1 | .limit, .sell => 2
   | .limit, .buy => 3 | .stop, .sell => 4 | .stop, .buy => 5
 
-instance : LE Float := inferInstance
-
 def parseQuotes : Nat → List String → List (String × Quote Float) × List String
   | 0, rest => ([], rest)
   | n + 1, sym :: b :: a :: d :: rest =>
@@ -26,55 +22,51 @@ def parseQuotes : Nat → List String → List (String × Quote Float) × List S
     ((sym, { bid := f64 b, ask := f64 a, date := d.toInt! }) :: qs, r)
   | _, rest => ([], rest)
 
+def quotesFn (qs : List (String × Quote Float)) : String → Option (Quote Float) :=
+  fun sym => (qs.find? (fun q => q.1 == sym)).map (·.2)
+
 def showOrder (o : UOrd) : String :=
-  let pr := match o.price with | some p => bits p | none => "-"
-  s!"{o.id.getD 0} {typNum o} {o.symbol} {bits o.shares} {pr}"
+  let pr := match o.price with | some p => fb p | none => "-"
+  let id := match o.id with | some i => toString i | none => "-"
+  s!"{id} {typNum o} {o.symbol} {fb o.shares} {pr}"
 def showTrade (t : Trade String Float) : String :=
   let sd := match t.side with | .buy => "B" | .sell => "S"
-  s!"{t.symbol} {bits t.value} {bits t.quantity} {t.date} {sd}"
+  s!"{t.symbol} {fb t.value} {fb t.quantity} {t.date} {sd}"
 
-def sellFirstPerm (n : Nat) (idx : List Nat) (buf : List UOrd) : Bool :=
-  idx.length == n && (List.range n).all (fun i => idx.count i == 1) &&
-  (let sides := idx.map (fun i => match buf[i]? with | some o => isSell o | none => false)
-   -- no buy before a sell
-   (sides.dropWhile id).all (fun b => !b))
+def snapshot (s : St) : String :=
+  s!"B {s.book.inner.length} {joinSp (s.book.inner.map showOrder)} ; U {s.buffer.length} ; N {s.book.last} ; L {s.log.length}"
 
-def stepLine (s : St) (line : String) : St × String :=
-  match line.trimAscii.toString.splitOn " " with
+def parseOrder (t sym shs pr : String) : UOrd :=
+  let (k, sd) := kindSide t.toNat!
+  let price : Option Float := if pr == "-" then none else some (f64 pr)
+  ⟨none, k, sd, sym, f64 shs, price⟩
+
+def step (s : St) (ts : List String) : St × String :=
+  match ts with
   | ["I", t, sym, shs, pr] =>
-    let (k, sd) := kindSide t.toNat!
-    let price : Option Float := if pr == "-" then none else some (f64 pr)
-    let o : UOrd := ⟨none, k, sd, sym, f64 shs, price⟩
-    ({ s with buffer := s.buffer ++ [o] }, "ok")
-  | ["D", id] => ({ s with book := s.book.delete id.toNat! }, "ok")
+    ({ s with buffer := s.buffer ++ [parseOrder t sym shs pr] }, "ok")
+  | ["D", id] =>
+    let s' := { s with book := s.book.delete id.toNat! }
+    (s', s!"ok ; {snapshot s'}")
   | "T" :: nq :: rest =>
     let (qs, rest) := parseQuotes nq.toNat! rest
     match rest with
+    | "A" :: _ :: ["BAD"] => (s, "REJECT-ADMISSION not-a-permutation-of-the-batch")
     | "A" :: n :: idx =>
       let idx := idx.map String.toNat!
-      if !sellFirstPerm n.toNat! idx s.buffer || n.toNat! != s.buffer.length then (s, "REJECT-ADMISSION")
+      let sellAt := fun i => match s.buffer[i]? with | some o => isSell o | none => false
+      if n.toNat! != s.buffer.length || !sellFirstPerm n.toNat! idx sellAt then
+        (s, "REJECT-ADMISSION not-sell-first")
       else
         let adm := idx.filterMap (fun i => s.buffer[i]?)
-        let quotes : String → Option (Quote Float) := fun sym => (qs.find? (fun q => q.1 == sym)).map (·.2)
-        let (s', ts, admitted) := s.tick quotes adm
-        let fs := " ".intercalate (ts.map showTrade)
-        let as := " ".intercalate (admitted.map showOrder)
-        (s', s!"F {ts.length} {fs} ; A {admitted.length} {as}")
+        let (s', ts, admitted) := s.tick (quotesFn qs) adm
+        (s', s!"F {ts.length} {joinSp (ts.map showTrade)} ; A {admitted.length} {joinSp (admitted.map showOrder)} ; {snapshot s'}")
     | _ => (s, "bad-op")
   | _ => (s, "bad-op")
 
-partial def loop (h : IO.FS.Stream) (s : St) : IO Unit := do
-  let line ← h.getLine
-  if line.isEmpty then return ()
-  if line.trimAscii.toString == "RESET" then
-    IO.println "reset"
-    loop h { book := { inner := [], last := 0 }, log := [], buffer := [] }
-  else
-    let (s', out) := stepLine s line
-    IO.println out
-    loop h s'
+def init : St := { book := { inner := [], last := 0 }, log := [], buffer := [] }
 
 def main : IO Unit := do
-  loop (← IO.getStdin) { book := { inner := [], last := 0 }, log := [], buffer := [] }
+  loopWith (← IO.getStdin) init step init
 
 end Drv.Uist
